@@ -127,7 +127,8 @@ def _write_fold(repo: Repo):
 
 
 def straddle_rule(repo: Repo, rep: Report, rid: str) -> None:
-    rep.rule(rid, "a bit-field that would straddle its unit is rejected: at definition time (calculator) and at read time (BitBuffer.read)")
+    rep.rule(rid, "a bit-field that would straddle its unit is rejected: at definition time (calculator, path rule) and at read time (BitBuffer.read "
+                  "folded: asking for more bits than the unit has left raises)")
     fi = repo.func("types/structure.py", "StructureMetaType._calculate_size_and_offsets")
     g = CFG(fi.node)
     dec = [n for n in g.nodes if n.kind == "stmt" and (
@@ -229,8 +230,9 @@ def _mentions_signedness(repo: Repo, e: ast.AST, depth: int = 0) -> bool:
 
 
 def signed_unit_rule(repo: Repo, rep: Report, rid: str) -> None:
-    rep.rule(rid, "the accumulated (non-negative) unit pattern is handed to the storage type's range-checked _write only through an expression "
-                  "that consults the type's signedness, or is emitted without that range check")
+    rep.rule(rid, "BitBuffer.write / flush folded over bit orders, unit sizes, signedness styles, width sequences and patterns: the unit handed to the "
+                  "storage type's range-checked _write lies in that type's range (signed units are re-interpreted), and a field value that does not fit "
+                  "is refused (structural fallback: the written value consults the type's signedness)")
     fi = repo.func("bitbuffer.py", "BitBuffer.flush")
     fold = _write_fold(repo)
     if fold is not None:
@@ -281,7 +283,9 @@ def signed_unit_rule(repo: Repo, rep: Report, rid: str) -> None:
 
 
 def mask_rule(repo: Repo, rep: Report, rid: str) -> None:
-    rep.rule(rid, "the value extracted by BitBuffer.read is masked by the field width on both endian arms; insertion shifts by the position in the unit")
+    rep.rule(rid, "BitBuffer.read / write folded against the C bit order: every field comes out as its own bits (within [0, 2^bits)), each read "
+                  "consumes exactly its width, the unit written is the C-order packing of the fields in the storage type's encoding (structural fallback: "
+                  "mask by the field width on both endian arms, insertion shifted by the position in the unit)")
     fi = repo.func("bitbuffer.py", "BitBuffer.read")
     bits = fi.node.args.args[2].arg
     rfold, wfold = _read_fold(repo), _write_fold(repo)
